@@ -503,7 +503,19 @@ class UF:
     def calls(self):
         return engine().ackermann.setdefault(self.name, [])
 
-    def __call__(self, out_len, *args):
+    link_concrete = False   # True: applications to concrete arguments (evaluated by the real function) are recorded as well, so that the
+                            # consistency / collision-freeness axioms relate them to the applications on symbolic arguments
+
+    def record(self, value, *args):
+        """the real function gave `value` for these concrete arguments"""
+        if not self.link_concrete or not active():
+            return
+        eng = engine()
+        if not hasattr(eng, 'ackermann') or not hasattr(eng, '_add'):
+            return
+        self(len(value), *args, _value=bytes(value))
+
+    def __call__(self, out_len, *args, _value=None):
         eng = engine()
         eng.tick()
         args = [SymBytes.lift(a) if not isinstance(a, (int, str)) else a for a in args]
@@ -512,9 +524,14 @@ class UF:
         for k, a2, res in calls:
             if k == key and len(res.items) == out_len:
                 return res
-        res = SymBytes(eng.sym_byte_terms(f'{self.name}', out_len))
-        eng.inputs[f'{self.name}#{len(calls)}'] = list(res.items)
+        if _value is not None:
+            res = SymBytes(list(_value))
+        else:
+            res = SymBytes(eng.sym_byte_terms(f'{self.name}', out_len))
+            eng.inputs[f'{self.name}#{len(calls)}'] = list(res.items)
         for k, a2, res2 in calls:
+            if _value is not None and res2.is_concrete():
+                continue
             if len(res2.items) != out_len or len(a2) != len(args):
                 continue
             eqs = []
@@ -649,7 +666,10 @@ class SymHMAC:
             dm = self.digestmod
             if hasattr(dm, 'hash_name'):
                 dm = getattr(hashlib, dm.hash_name)
-            return _hmac.HMAC(bytes(k), bytes(m), digestmod=dm).digest()
+            out = _hmac.HMAC(bytes(k), bytes(m), digestmod=dm).digest()
+            if HMAC_UF.link_concrete and not HASH_LEVEL:
+                HMAC_UF.record(out, _hash_name(self.digestmod), bytes(k), bytes(m))
+            return out
         name = _hash_name(self.digestmod)
         if HASH_LEVEL:
             return hmac_rfc2104(k, m, name)
